@@ -323,8 +323,12 @@ func (fr *Frame) ringCall(st *State, fn *ssa.Function, args []Value) (Value, boo
 	case "Select":
 		c := args[1].(*Term)
 		return set(F.Ite(F.Eq(c, F.I64(0)), ld(2), ld(3)))
+	case "MulByNonResidue":
+		return set(F.Mul(v.ringNR(rt), ld(1)))
+	case "MulByElement":
+		return set(F.Mul(ld(1), ld(2)))
 	case "Conjugate":
-		return nil, false
+		return set(F.App("ring.conj."+recvName(rt), SInt, ld(1)))
 	}
 	return nil, false
 }
@@ -343,6 +347,11 @@ func (v *Verifier) ringEq(a, b *Term) *Term {
 		return v.F.True()
 	}
 	return v.ringIsZero(v.F.Sub(a, b))
+}
+
+// ringNR: the (abstract) non-residue constant of an abstract extension ring type
+func (v *Verifier) ringNR(t types.Type) *Term {
+	return v.F.Var("ring.nr."+recvName(t), SInt)
 }
 
 func (v *Verifier) ringInv(x *Term) *Term {
